@@ -234,6 +234,8 @@ class Engine(InterpMixin, AttrMixin):
             return wrap(z3.simplify(z3.ToReal(z3.ToInt(ta / tb))), npv, dt)
         if not self.truth(b != 0):
             if npv:
+                if (dt or "").startswith("float"):
+                    raise Unsupported("numpy float division by zero (nan / inf result)")
                 self.event("np-div-by-zero")
                 return wrap(z3.IntVal(0), True, dt)
             raise self.pyraise(ZeroDivisionError, "integer division or modulo by zero")
@@ -253,6 +255,8 @@ class Engine(InterpMixin, AttrMixin):
             return wrap(z3.simplify(ta - tb * z3.ToReal(z3.ToInt(ta / tb))), npv, dt)
         if not self.truth(b != 0):
             if npv:
+                if (dt or "").startswith("float"):
+                    raise Unsupported("numpy float modulo by zero (nan result)")
                 self.event("np-div-by-zero")
                 return wrap(z3.IntVal(0), True, dt)
             raise self.pyraise(ZeroDivisionError, "integer division or modulo by zero")
